@@ -1478,7 +1478,9 @@ func f19goToString(x any) string {
 func f19joinSplit(e *Env) error {
 	r := e.Rep
 	b := &f19batch{e: e}
-	seps := []f19v{f19str(""), f19str(","), f19str(" "), f19str("|"), f19str(", "), f19str("ab"), f19str("é"), f19str("\xff"), f19str(",,"), f19str("\x80"), f19int(1), f19null()}
+	seps := []f19v{f19str(""), f19str(","), f19str(" "), f19str("|"), f19str(", "), f19str("ab"), f19str("é"), f19str("\xff"), f19str(",,"), f19str("\x80"), f19int(1), f19null(),
+		// characters that mean something inside a regular-expression character class
+		f19str("a-c"), f19str("z-a"), f19str("-,"), f19str(",-"), f19str("^a"), f19str("]["), f19str("\\d"), f19str("a]"), f19str("[:alpha:]"), f19str(".*"), f19str("\xff\xfe")}
 	words := []string{"a", "b,", "", "é", ",", "x y", "ab", "c|d", "\xff", "a,b", " "}
 	n := e.N(3000, 60000)
 	for i := 0; i < n; i++ {
